@@ -215,6 +215,9 @@ class Check:
         self.violations = []  # (key, description, replay_path)
         self.known = Known(prop)
         os.makedirs(os.path.join(REPLAYS, prop), exist_ok=True)
+        for old in os.listdir(os.path.join(REPLAYS, prop)):
+            if old.startswith("v") and old.endswith(".json"):
+                os.remove(os.path.join(REPLAYS, prop, old))
 
     def replay_path(self, name):
         return os.path.join(REPLAYS, self.prop, name)
@@ -230,6 +233,10 @@ class Check:
         path = self.replay_path(name)
         if replay_obj is not None:
             with open(path, "w") as f:
+                if isinstance(replay_obj, dict):
+                    replay_obj = dict(replay_obj)
+                    replay_obj.setdefault("key", key)
+                    replay_obj.setdefault("detail", what)
                 if isinstance(replay_obj, (dict, list)):
                     json.dump(replay_obj, f, indent=1)
                 else:
